@@ -51,8 +51,14 @@ ASSUMPTIONS = ["numbers are integers (no floats in generated bodies)",
                "there is not an 'ordinary annotation'; it disappears from the essence once the kopf-managed marker is written)",
                "MultiDiffBaseStorage/MultiProgressStorage are modelled flat (no Multi inside Multi)"]
 
-THEOREM_NAMES = [] ; _PLANNED = [
-    "diff_self_empty", "diff_empty_iff", "apply_diff", "reduce_exact", "bool_int_witness", "null_absent_witness",
+THEOREM_NAMES = [
+    "diff_self_empty", "diff_empty_iff", "apply_diff", "reduce_exact", "reduce_apply", "reduce_empty_iff",
+    "bool_int_witness", "null_absent_witness",
+    "status_invisible", "status_removal_invisible", "system_metadata_invisible", "finalizers_invisible",
+    "marked_annotation_invisible", "marker_first_write_witness",
+    "payload_exact", "essence_injective_on_payload", "payload_change_detected",
+    "ordinary_annotation_kept", "marked_annotation_dropped",
+    "extra_status_witness", "multi_drs_witness",
 ]
 
 QUICK_PAIRS, THOROUGH_PAIRS = 5000, 300000
@@ -731,7 +737,7 @@ def gen_ess_case(rng: random.Random) -> dict:
 
 def gen_writes(rng: random.Random) -> list[dict]:
     kinds = ["progress.store", "progress.store", "progress.purge", "touch", "touch-clear", "diffbase.store", "diffbase.store",
-             "finalizer.add", "finalizer.remove", "sysmeta", "status"]
+             "finalizer.add", "finalizer.remove", "sysmeta", "status", "other-operator", "other-operator"]
     ws = []
     for _ in range(rng.choice([1, 2, 3, 4, 5])):
         k = rng.choice(kinds)
@@ -746,6 +752,14 @@ def gen_writes(rng: random.Random) -> list[dict]:
                            "subrefs": rng.choice([None, ["fn/sub1"]])}
         if k == "touch":
             w["value"] = rng.choice(["2020-01-01T00:00:00.123456", "x"])
+        if k == "other-operator":
+            # another Kopf-based operator persists its state: under a prefix it marks, or under a sub-domain of the known one
+            w["annotations"] = rng.choice([
+                {"other-op.example.org/kopf-managed": "yes", "other-op.example.org/create_fn": "{\"started\":\"2020\"}"},
+                {"other-op.example.org/kopf-managed": "yes", "other-op.example.org/last-handled-configuration": "{\"spec\":{}}\n"},
+                {"other.kopf.zalando.org/touch-dummy": "2020-01-01"},
+                {"other.kopf.zalando.org/last-handled-configuration": "{\"spec\":{\"x\":1}}\n", "other.kopf.zalando.org/fn": "{}"},
+                {"kopf.zalando.org/some-other-handler": "{\"retries\":1}"}])
         if k == "sysmeta":
             w["edit"] = rng.choice(["resourceVersion", "managedFields", "generation", "deletionTimestamp", "selfLink", "uid"])
         if k == "status":
@@ -775,6 +789,9 @@ def apply_write(K: dict, ds: Any, ps: Any, body: dict, w: dict, essence: Any) ->
         else:
             m[e] = str(m.get(e) or "") + "1"
         return nb, [["metadata", e]]
+    if k == "other-operator":
+        pj = {"metadata": {"annotations": dict(w["annotations"])}}
+        return merge_patch(body, pj), leaf_paths(pj)
     if k == "status":
         patch: Any = {}
         d = patch
@@ -912,7 +929,8 @@ def eval_ess_case(K: dict, case: dict, out: Out) -> None:
                     rp["fetched_old"] = old
             if bad:
                 sig = SIG_F8 if overlap else classify_own(K, case, ds, nb, w)
-                out.fail("oracle", f"the framework's own write ({w['w']}) changes the essence / re-triggers handling", rp, sig)
+                who = "another Kopf-based operator's write" if w["w"] == "other-operator" else f"the framework's own write ({w['w']})"
+                out.fail("oracle", f"{who} changes the essence / re-triggers handling", rp, sig)
                 break
             cur = nb
     # ---- oracle 2: a single foreign edit of payload / labels / ordinary annotations counts ------
@@ -1115,8 +1133,15 @@ def absorb_oracle_only(ctx: Ctx, out: Out) -> None:
 def replay(ctx: Ctx, data: dict) -> None:
     K = _kopf()
     case = data.get("replay", data)
+    if data.get("kind") == "broken-obligation":
+        case = (data.get("first") or {}).get("input") or {}
+        print("broken obligation(s):", sorted(set(data.get("what", []))))
     if isinstance(case, dict) and "input" in case and "kind" not in case:
         case = case["input"]
+    if not isinstance(case, dict) or case.get("kind") not in ("diff", "essence"):
+        print("this replay file names a broken proof/tie obligation without a concrete input; re-run ./check C04 quick")
+        ctx.tie_fail("broken obligation without input", data)
+        return
     out = Out()
     eval_case(K, case, out)
     settle(out)
